@@ -141,6 +141,10 @@ def payloads(canary):
         ("fmt_attr", "{langid.__class__.__mro__} {0.__class__} MARK14"),
         ("fmt_index", "{langid[0]}{langid!r:>30} MARK15"),
         ("percent_dollar", "%(langid)s %s ${HOME} $HOME MARK16"),
+        # file names: text that, taken for a path to write to, would create or clobber a file
+        ("path_abs", f"{canary}/MARK17.txt"),
+        ("path_up", "../canary/keep.txt"),
+        ("path_source", "main.F90"),
     ]
 
 
@@ -189,6 +193,7 @@ def sites(P):
                                         "pp_defs": {P: P, "Y": P}})
     S["config_scalars"] = w("#if Y\n#endif\n", config={"nthreads": P, "max_line_length": P, "recursion_limit": 1000,
                                                        "pp_defs": {"Y": "1"}, "debug_log": True})
+    S["config_file_names"] = w("", config={"debug_log": P, "hover_language": P, "config": P, "source_dirs": ["."]})
     S["use_and_decl"] = w(f"  use {P}\n  type({P}) :: q\n  call {P}\n")
     return S
 
